@@ -1275,7 +1275,9 @@ class Vector():
 		if id(self) == id(other):
 			# If the object references match, we need to copy other
 			# return Vector((x for x in other), other._default, other._dtype, other._typesafe)
-			return deepcopy(other)
+			# (copy(): deepcopy() of a Table never terminates - it probes attributes of the
+			# half-built copy through Table.__getattr__ - and copy() already gives independent storage)
+			return other.copy()
 		return other
 
 
